@@ -127,8 +127,21 @@ def gen_own(seed, n):
         else:
             lines.append(c.inst(sec * 10 ** 9))
         admin = c.admin; pending = None; mint = None        # generator's own guess of the state (heuristic only)
-        old_mint = None
+        old_mint = None; after_other = False
         for k in range(rnd.randrange(6, 25)):
+            if after_other and pending and rnd.random() < 0.5:
+                # right after an unrelated admin call the nominee tries again, still before the deadline
+                after_other = False
+                sec += rnd.randrange(1, 3600)
+                ns = sec * 10 ** 9 + rnd.randrange(10 ** 9)
+                if treasury:
+                    lines.append("texec %d %s accept_own" % (ns, hx(pending)))
+                else:
+                    lines.append("exec %d - %s [] accept_own" % (ns, hx(pending)))
+                if mint is None or sec >= mint:
+                    admin = pending; pending = None
+                continue
+            after_other = False
             if old_mint is not None:
                 # the nominee of a RE-nomination tries at the deadline of the earlier nomination: the clock restarted
                 sec = max(sec, old_mint + rnd.choice([0, 0, 1, 3600])); old_mint = None
@@ -160,7 +173,7 @@ def gen_own(seed, n):
             op = rnd.choice(["xfer", "xfer", "accept", "accept", "accept", "revoke", "other", "other"])
             if op == "other":
                 # an unrelated call by the admin, kept: it must leave the nomination and its deadline alone
-                who = admin
+                who = admin; after_other = True
                 if treasury:
                     v = rnd.choice(["updcfg %s -" % hx(c.users[3]), "updcfg - {}"])
                 else:
